@@ -4,7 +4,6 @@ package main
 
 import (
 	"fmt"
-	"go/types"
 	"regexp"
 	"sort"
 	"strings"
@@ -463,122 +462,43 @@ func checkC15(p *Prog, rp *Report) {
 }
 
 func c15Bounds(p *Prog, r *Rule) {
-	// (a) header parser: every constant index/slice bound on the header parameter is <= the length established by a dominating guard
-	hp := p.Func("deb", "parseArEntry")
-	if hp == nil {
-		// locate by role: callee of Next taking []byte
-		if next := p.Method("deb", "Ar", "Next"); next != nil {
-			for _, f := range reachableRepoFuncs(next) {
-				if f != next && f.Signature.Params().Len() == 1 {
-					if _, ok := f.Signature.Params().At(0).Type().Underlying().(*types.Slice); ok {
-						hp = f
-					}
-				}
-			}
-		}
+	// every index and slice expression of the ar reader and of the loader stays in range on the concrete
+	// archives (well-formed, short, truncated, blank and oversized columns, blank names) and on the scripted
+	// packages (member names equal to or shorter than the prefixes): an out-of-range access is a panic state
+	pos := ""
+	if fn := p.Method("deb", "Ar", "Next"); fn != nil {
+		pos = p.Pos(fn.Pos())
 	}
-	if hp == nil {
-		r.undecided("deb.header-parser", "", "header parser not located")
+	b := arConcrete(p)
+	if b.undecided != "" {
+		r.undecided("deb.Ar.Next:bounds", pos, b.undecided)
 	} else {
-		lenGuard := int64(-1)
-		var guardBlk *ssa.BasicBlock
-		for _, g := range guardsOf(hp) {
-			if m := regexp.MustCompile(`^\((\d+) != len\(p0\)\)$`).FindStringSubmatch(g.Term); m != nil && rejectsOn(hp, g, 0) {
-				fmt.Sscan(m[1], &lenGuard)
-				guardBlk = g.If.Block()
-			}
-		}
-		maxIdx := int64(-1)
-		okDom := true
-		for _, b := range hp.Blocks {
-			for _, ins := range b.Instrs {
-				switch x := ins.(type) {
-				case *ssa.IndexAddr:
-					if x.X == ssa.Value(hp.Params[0]) {
-						if n, ok := constInt(x.Index); ok {
-							if n+1 > maxIdx {
-								maxIdx = n + 1
-							}
-							if guardBlk == nil || !guardBlk.Dominates(b) || b == guardBlk {
-								okDom = false
-							}
-						} else {
-							okDom = false
-						}
-					}
-				case *ssa.Slice:
-					if x.X == ssa.Value(hp.Params[0]) {
-						for _, bnd := range []ssa.Value{x.Low, x.High} {
-							if bnd == nil {
-								continue
-							}
-							if n, ok := constInt(bnd); ok {
-								if n > maxIdx {
-									maxIdx = n
-								}
-							} else {
-								okDom = false
-							}
-						}
-						if guardBlk == nil || !guardBlk.Dominates(b) || b == guardBlk {
-							okDom = false
-						}
-					}
+		var panics []string
+		for _, ps := range b.problems {
+			for _, pr := range ps {
+				if strings.Contains(pr, "PANIC") {
+					panics = append(panics, pr)
 				}
 			}
 		}
-		r.check(lenGuard >= 0 && maxIdx <= lenGuard && okDom, fname(hp)+":header-bounds", p.Pos(hp.Pos()), fmt.Sprintf("all constant bounds <= %d, the header length checked before any access", lenGuard), fmt.Sprintf("header accessed up to byte %d but the length check establishes %d (or does not dominate every access)", maxIdx, lenGuard))
+		fillProblems(r, "deb.Ar.Next:bounds", pos, panics, fmt.Sprintf("%d concrete archives: no index or slice of the header parser leaves its range", b.nArchives))
 	}
-	// (b) Next: the buffer length equals the count required before parsing
-	if next := p.Method("deb", "Ar", "Next"); next != nil {
-		bufLen, need := int64(-1), int64(-2)
-		for _, b := range next.Blocks {
-			for _, ins := range b.Instrs {
-				if ms, ok := ins.(*ssa.MakeSlice); ok {
-					if n, ok := constInt(ms.Len); ok {
-						bufLen = n
-					}
-				}
-				if sl, ok := ins.(*ssa.Slice); ok {
-					if al, ok := sl.X.(*ssa.Alloc); ok {
-						if at, ok := al.Type().Underlying().(*types.Pointer).Elem().Underlying().(*types.Array); ok {
-							bufLen = at.Len()
-						}
-					}
-				}
-			}
+	std := debScenario{members: stdMembers, binary: "2.0\n", tarEntries: []string{"./control"}}
+	var problems []string
+	undec := ""
+	for _, ms := range [][]string{{"debian-binary", "control.", "data."}, {"debian-binary", "control.t", "data.t"}, {"debian-binary", "control.tar", "data.tar"}, {"debian-binary", "control.tar.", "data.tar."}, {"d", "c", "_"}, {""}} {
+		sc := std
+		sc.members = ms
+		if _, why := runLoadDeb(p, sc); strings.HasPrefix(why, "panic") {
+			problems = append(problems, fmt.Sprintf("members %q: %s", ms, why))
+		} else if why != "" && undec == "" {
+			undec = why
 		}
-		for _, g := range guardsOf(next) {
-			if m := regexp.MustCompile(`^\((\d+) != .*ReadAt\(.*\)#0\)$`).FindStringSubmatch(g.Term); m != nil && rejectsOn(next, g, 0) && dominatesAllSuccess(next, g) {
-				fmt.Sscan(m[1], &need)
-			}
-		}
-		r.check(bufLen == need && need == 60, "deb.Ar.Next:header-length", p.Pos(next.Pos()), "a member is only parsed from a full 60 byte header read", fmt.Sprintf("header buffer has %d bytes, the read-count check requires %d (ar headers have 60)", bufLen, need))
 	}
-	// (c) index expressions on member names: slicing after the selector's prefix (C14-EXT) cannot exceed the name
-	tm := newTermer()
-	for _, name := range []string{"loadDeb2Control", "loadDeb2Data"} {
-		fn := p.Func("deb", name)
-		if fn == nil {
-			continue
-		}
-		for _, b := range fn.Blocks {
-			for _, ins := range b.Instrs {
-				sl, ok := ins.(*ssa.Slice)
-				if !ok || !isStringT(sl.X.Type()) {
-					continue
-				}
-				t := tm.term(sl)
-				m := regexp.MustCompile(`^.*\(.*,"([a-z]+\.)"\)#0\.Name\[(\d+):`).FindStringSubmatch(t)
-				if m == nil {
-					r.undecided("deb."+name+":name-slice", p.Pos(sl.Pos()), "slice of unknown provenance: "+t)
-					continue
-				}
-				var low int
-				fmt.Sscan(m[2], &low)
-				r.check(low <= len(m[1]), "deb."+name+":name-slice", p.Pos(sl.Pos()), fmt.Sprintf("Name[%d:] of a member selected by HasPrefix(Name,%q): in range", low, m[1]), fmt.Sprintf("Name[%d:] can exceed a name that is only known to start with %q: slice bounds out of range on a short member name", low, m[1]))
-			}
-		}
+	if undec != "" {
+		r.undecided("deb.Load:bounds", pos, undec)
+	} else {
+		fillProblems(r, "deb.Load:bounds", pos, problems, "6 member lists with names as short as the prefixes the loader slices off: no slice leaves its range")
 	}
 }
 
